@@ -297,43 +297,43 @@ def parsePSrc (s : String) : Option PSrc :=
 def sinkOf (k : Sk V) : Pipes.Sink V (Option (List V)) :=
   { σ := Sk V, sink := Sk.sink, fin := Sk.finalize, st := k }
 
-def toShape (leaves : List (St V)) : PShape → Option (Pipes.Shape V)
-  | .leaf i => (leaves[i]?).map (fun st => .leaf (stageOf st))
+def toShape (leaves : List (PipeRegistry.Leaf V)) : PShape → Option (Pipes.Shape V)
+  | .leaf i => (leaves[i]?).map (fun l => .leaf (l.stage V.err))
   | .unit i => (toShape leaves i).map .unit
   | .pipe a b => do pure (.pipe (← toShape leaves a) (← toShape leaves b))
   | _ => none
 
-def toSShape (leaves : List (St V)) (e : PSrc) : PShape → Option (Pipes.SShape V)
+def toSShape (leaves : List (PipeRegistry.Leaf V)) (e : PSrc) : PShape → Option (Pipes.SShape V)
   | .src => some (.src (sourceOf e))
   | .unit i => (toSShape leaves e i).map .unit
   | .pipe a b => do pure (.pipe (← toSShape leaves e a) (← toShape leaves b))
   | _ => none
 
-def toKShape (leaves : List (St V)) (k : Sk V) : PShape → Option (Pipes.KShape V (Option (List V)))
+def toKShape (leaves : List (PipeRegistry.Leaf V)) (k : Sk V) : PShape → Option (Pipes.KShape V (Option (List V)))
   | .snk => some (.snk (sinkOf k))
   | .unit i => (toKShape leaves k i).map .unit
   | .pipe a b => do pure (.pipe (← toShape leaves a) (← toKShape leaves k b))
   | _ => none
 
 /-- specification: feed the whole stream through the stages one after the other -/
-def seqSpec (leaves : List (St V)) (xs : List V) : List V := PipeRegistry.seqSpec V.err leaves xs
+def seqSpec (leaves : List (PipeRegistry.Leaf V)) (xs : List V) : List V := PipeRegistry.seqSpecL V.err leaves xs
 
 /-- per-stage invocation record demanded by the property: stage `j` sees the complete output stream of
 stage `j-1` (for source pipes: only the items, never the end marker) -/
-def seqLogs (leaves : List (St V)) (xs : List V) : List (List V) := PipeRegistry.seqLogs V.err leaves xs
+def seqLogs (leaves : List (PipeRegistry.Leaf V)) (xs : List V) : List (List V) := PipeRegistry.seqLogsL V.err leaves xs
 
 /-- the generic pipe model (`Pipes.Shape.run` etc.) evaluated from the initial state -/
-def pipeRunLast (leaves : List (St V)) (shape : PShape) (log : List V) : Option V :=
+def pipeRunLast (leaves : List (PipeRegistry.Leaf V)) (shape : PShape) (log : List V) : Option V :=
   match toShape leaves shape with
   | some sh => (sh.run log).getLast?
   | none => none
 
-def pipePullLast (leaves : List (St V)) (e : PSrc) (shape : PShape) (k : Nat) : Option (Option V) :=
+def pipePullLast (leaves : List (PipeRegistry.Leaf V)) (e : PSrc) (shape : PShape) (k : Nat) : Option (Option V) :=
   match toSShape leaves e shape with
   | some sh => (sh.pulls k).getLast?
   | none => none
 
-def pipeFinalize (leaves : List (St V)) (k : Sk V) (shape : PShape) (log : List V) : Option (Option (List V)) :=
+def pipeFinalize (leaves : List (PipeRegistry.Leaf V)) (k : Sk V) (shape : PShape) (log : List V) : Option (Option (List V)) :=
   match toKShape leaves k shape with
   | some sh => some (sh.feed log).finalize
   | none => none
@@ -345,11 +345,15 @@ def DState.getPipe (d : DState) (id : Nat) : Option PipeInst := (d.pipes.find? (
 def DState.putPipe (d : DState) (id : Nat) (i : PipeInst) : DState :=
   { d with pipes := (id, i) :: d.pipes.filter (·.1 != id) }
 
-def parseLeaves (s : String) : Option (List (St V)) :=
+def parseLeaves (s : String) : Option (List (PipeRegistry.Leaf V)) :=
   if s == "-" then some [] else
   (s.splitOn "|").mapM (fun l =>
     match l.splitOn ";" with
-    | kind :: params => (mkCfg kind (parseKV params)).map Cfg.init
+    | "p_acc" :: params => (parseKV params).val "a" |>.map (fun a => .own (.acc 0 a))
+    | "p_affine" :: params => do pure (.own (.affine (← (parseKV params).val "a") (← (parseKV params).val "b")))
+    | "p_lag" :: params => (parseKV params).val "init" |>.map (fun v => .own (.lag v))
+    | "p_max" :: _ => some (.own (.runMax none))
+    | kind :: params => (mkCfg kind (parseKV params)).map (fun c => .lib c.init)
     | [] => none)
 
 partial def shapeFlags : PShape → List String
